@@ -1,4 +1,4 @@
-* quick tier: unlock-then-signal discipline (--test-cond-signal-outside), no spurious wake-ups, 3 positions
+\* quick tier: unlock-then-signal discipline (--test-cond-signal-outside), no spurious wake-ups, 3 positions
 SPECIFICATION FairSpec
 CONSTANTS
   N = 3
